@@ -244,7 +244,7 @@ TOK_TEXT = {"s.pn": "ex:a", "s.abs": "<http://x.org/s>", "s.rel": "<r1>", "s.bn"
             "o.pn": "ex:b", "o.abs": "<http://x.org/o#f>", "o.rel": "<r2>", "o.bn": "_:b2", "o.int": "57",
             "o.str": '"x y"', "o.xsd": '"5"^^xsd:int', "o.dti": '"v"^^<http://x.org/dt>', "o.dtp": '"v"^^ex:dt', "o.dtg": '"4"^^geo:deg',
             "o.lang": '"hola"@es', "o.spec": '"a # b ; c , d . e"', "o.esc": '"q\\"u\\\\"', "o.cls": "ex:C",
-            "o.https": "<https://s.org/x>", "s.https": "<https://s.org/y#z>"}
+            "o.https": "<https://s.org/x>", "s.https": "<https://s.org/y#z>", "@re": "@prefix ex: <http://ex2.org/> ."}
 SUBJ_TOKS = ["s.pn", "s.abs", "s.rel", "s.bn", "s.https"]
 PRED_TOKS = ["p.pn", "p.a", "p.abs", "p.type"]
 OBJ_TOKS = ["o.pn", "o.abs", "o.rel", "o.bn", "o.int", "o.str", "o.xsd", "o.dti", "o.dtp", "o.dtg", "o.lang", "o.spec", "o.esc", "o.cls", "o.https"]
@@ -288,6 +288,7 @@ def random_ttl_doc(rnd, max_triples=8, gaps=GAPS, obj_toks=None):
     obj_toks = obj_toks or [t for t in OBJ_TOKS if t != "o.cls"]
     toks = []
     n = 0
+    rebound = False
     while n < max_triples and (n == 0 or rnd.random() < .8):
         toks.append(rnd.choice(SUBJ_TOKS))
         while True:
@@ -305,8 +306,15 @@ def random_ttl_doc(rnd, max_triples=8, gaps=GAPS, obj_toks=None):
                 continue
             break
         toks.append(".")
+        if not rebound and n < max_triples and rnd.random() < .12:
+            toks.append("@re")          # a directive in the middle of the document re-binds the label ex:
+            rebound = True
     g = [rnd.choice(gaps) if rnd.random() < .6 else "sp" for _ in toks]
     g[-1] = "nl"
+    for j, t in enumerate(toks):        # a directive stands on a line of its own
+        if t == "@re":
+            g[j] = rnd.choice(["nl", "cline"]) if "cline" in gaps else "nl"
+            g[j - 1] = rnd.choice(["nl", "cline", "cmt"]) if "cline" in gaps else "nl"
     return toks, g
 
 
